@@ -136,6 +136,22 @@ func (fc *fnCtx) chanInv(st *state, ch, v Val) string {
 	return "(and " + strings.Join(parts, " ") + ")"
 }
 
+// chanMatches: the channel is the struct field / call result / expression the anchor argument names.
+func (fc *fnCtx) chanMatches(st *state, ch Val, arg string) bool {
+	if p, ok := fc.prov[ch.T]; ok && strings.HasSuffix(p, "!"+arg) {
+		return true
+	}
+	if fc.callOf[ch.T] == arg {
+		return true
+	}
+	var t string
+	func() {
+		defer func() { recover() }()
+		t = fc.evalHole(arg, &evalCtx{cur: st, old: fc.entry, bind: map[string]Val{}}).T
+	}()
+	return t != "" && t == ch.T
+}
+
 func (fc *fnCtx) execSelect(st *state, i *ssa.Select) {
 	n := len(i.States)
 	idx := fc.fresh("sel", "Int")
@@ -163,6 +179,30 @@ func (fc *fnCtx) execSelect(st *state, i *ssa.Select) {
 		}
 	}
 	tuple[1] = Val{T: fc.def("Bool", okT), S: "Bool"}
+	if i.Blocking && n > 1 && fc.blk != nil {
+		for _, c := range fc.blk.byKind("watches") {
+			found := false
+			for _, s := range i.States {
+				if s.Dir == types.SendOnly {
+					continue
+				}
+				ch := fc.val(s.Chan)
+				if fc.chanMatches(st, ch, c.anchor) {
+					found = true
+				}
+			}
+			fc.anchorsHit[c]++
+			goal := "true"
+			if !found {
+				goal = "false"
+			}
+			o := fc.assert(st, "at", fmt.Sprintf("select.watches(%s)#%d", c.anchor, fc.site("watches."+c.anchor)), goal,
+				"every blocking select of the actor loop has a receive case on "+c.anchor+" (taken directly from its source, not from a variable that may be nil)", i.Pos())
+			if !found {
+				o.trivial = false
+			}
+		}
+	}
 	if !i.Blocking {
 		// default taken: every send case found no room (Go semantics of select/default)
 		fl := fc.heapVar(st, "ch!full", "(Array V Bool)")
